@@ -286,6 +286,10 @@ def family_grids(shard):
     fam = shard['fam']
     if fam == 'uniform':
         yield np.full(shape, LOW)
+        # a wall whose energy is EXACTLY the threshold (not admissible: the node test is F < threshold)
+        Fw = np.full(shape, LOW)
+        Fw[shape[0] // 2] = THR
+        yield Fw
     elif fam == 'pattern':
         F = np.zeros(shape)
         for idx in np.ndindex(shape):
